@@ -166,20 +166,17 @@ class FaultLog:  # 0418  # TODO: use a NamedTuple
 
         new_map |= {idx: dtm}
 
+        # all older entries are below this one: keep their relative positions, and push
+        # them down (only) as far as is needed for the first of them to be at idx + 1
         if not (idxs := [k for k, v in self._map.items() if v < dtm]):
             return new_map
 
-        if (next_idx := min(idxs)) > idx:
-            diff = 0
-        elif next_idx == idx:
-            diff = 1  # next - idx + 1
-        else:
-            diff = idx + 1  # 1 if self._map.get(idx) else 0
+        diff = max(0, idx + 1 - min(idxs))
 
         new_map |= {
             k + diff: v  # type: ignore[misc]
             for k, v in self._map.items()
-            if (k >= idx or v < dtm) and k + diff <= self._MAX_LOG_IDX
+            if v < dtm and k + diff <= self._MAX_LOG_IDX
         }
 
         return new_map
